@@ -64,6 +64,8 @@ class HostileWorld(W.FaultyWorld):
             out.append(a)
         elif k < 0.7:
             m = wiregen.mutations(rng, answer, 8) + wiregen.rdlength_games(rng, answer)
+            if rng.random() < 0.06:
+                m = (wiregen.pointer_cycle(rng, answer, 8100) if rng.random() < 0.5 else wiregen.pointer_chains(rng, answer, (rng.choice([200, 3000, 8100]),))) or m      # very long chains of backward pointers (stack depth)
             out.append(rng.choice(m) if m else answer)
         elif k < 0.8 and pq:
             # many MX/SRV records: complete preference tables (10, 20, … exactly n records), odd preferences, targets that are compression
